@@ -155,7 +155,25 @@ func c10Cookie(c []byte, prov c10Provider, stage *string) (res c10Res) {
 }
 
 // c10Guard runs f under recover in its own goroutine with a watchdog.
+// c10Stalls counts calls whose watchdog fired although the call, repeated, returned: the process was
+// stalled (a loaded machine), the call does not hang.
+var c10Stalls atomic.Int64
+
+// c10Guard runs a pure CPU call under recover and a watchdog.  A call that hangs does so on every run
+// (the calls are deterministic functions of their input), so the verdict "hang" needs the watchdog
+// to fire twice: 10 s, then 60 s on a repetition; a repetition that returns decides the case.
 func c10Guard(f func(stage *string) c10Res) c10Res {
+	r := c10GuardOnce(f, c10Watchdog)
+	if r.hung {
+		if r2 := c10GuardOnce(f, 6*c10Watchdog); !r2.hung {
+			c10Stalls.Add(1)
+			return r2
+		}
+	}
+	return r
+}
+
+func c10GuardOnce(f func(stage *string) c10Res, watchdog time.Duration) c10Res {
 	stage := new(string)
 	done := make(chan c10Res, 1)
 	go func() {
@@ -168,7 +186,7 @@ func c10Guard(f func(stage *string) c10Res) c10Res {
 		r.stage = *stage
 		done <- r
 	}()
-	t := time.NewTimer(c10Watchdog)
+	t := time.NewTimer(watchdog)
 	defer t.Stop()
 	select {
 	case r := <-done:
@@ -1084,6 +1102,7 @@ func init() {
 		}
 		r.Eval(total.Load())
 		r.DistinctN(total.Load()) // every mutant is a different datagram
+		r.Set("watchdog_fired_but_repetition_returned", c10Stalls.Load())
 		r.Set("ext_length_lt4_run_in_process", c.st.inproc.Load())
 		r.Set("ext_length_lt4_not_run_after_hang", c.st.skipped.Load())
 		r.Assume("the server's key lookup is mirrored by a map {sealing key id, one other key id}; a changed key id is rejected because no or another key is found (the id itself is not bound by the cookie's AEAD)")
